@@ -109,7 +109,7 @@ class PassState:
         self.ok = False
         self.last = {}        # frame array -> (rows, channels) of its previous populate
         self.interleaved = self._interleaved()
-        self.index = LogicalFile.LogicalIndex(io.BytesIO(data))
+        self.index = LogicalFile.LogicalIndex(engine.handle(data))
         self.index.__enter__()
         self.ok = self.check_index(cc)
 
